@@ -8,9 +8,9 @@ script and must make exactly the same calls and produce the same commands / chil
 from lib.coqterm import cbool, cnat, cN, clist, copt
 
 ID = "C14"
-QUICK_N = 420
-THOROUGH_N = 6000
-SHARD = 36
+QUICK_N = 300
+THOROUGH_N = 4000
+SHARD = 25
 CASE_TYPE = "case"
 COQ_PRELUDE = "From MV Require Import Model.TlsTunnel.\n"
 ALLOWED_AXIOMS = []
@@ -155,6 +155,9 @@ def gen_one(rng):
             ops.append(["d", side, 0])          # DataReceived with nothing pending is skipped by the runner
             ops.append(["i", rng.randint(0, 3)])
         elif k == "cn":
+            if rng.chance(0.6):                      # data and close_notify in the same segment(s)
+                for _ in range(rng.randint(1, 2)):
+                    ops.append(["w", side, _data(rng, 1, 80)])
             ops.append(["cn", side])
             ops += _deliver_all(rng, side)
         elif k == "x":
@@ -194,6 +197,8 @@ def gen_one(rng):
         for side in tls_sides:
             if side not in closed and rng.chance(0.7):
                 if rng.chance(0.6):
+                    if rng.chance(0.5):
+                        ops.append(["w", side, _data(rng, 1, 80)])
                     ops.append(["cn", side])
                     ops += _deliver_all(rng, side)
                 ops.append(["x", side])
@@ -995,6 +1000,16 @@ def oracle(case, obs):
         want = _child_sent(case, obs, s)
         if bytes.fromhex(p["got"]) != want:
             v.append({"key": "outbound-bytes", "what": f"child sent {len(want)} bytes on {s}, peer decrypted {len(bytes.fromhex(p['got']))} (or different bytes)"})
+    # events that pass through the layers (Start, injected events) reach the child in arrival order, each at most
+    # once; all of them once every tunnel is established
+    pt = lambda l: [e for e in l if e[0] in ("start", "other")]
+    fed_pt, got_pt = pt(obs["fed"]), pt(obs["clog"])
+    it = iter(fed_pt)
+    if not all(any(e == f for f in it) for e in got_pt):
+        v.append({"key": "event-order", "what": f"child received pass-through events {got_pt} but they arrived as {fed_pt}"})
+    elif (not crash and got_pt != fed_pt and all(st in ("OPEN", "INACTIVE") for st in obs["final"].values())
+          and not any(t[:3] == ["cmd", "hook", "fail"] for t in obs["trace"])):
+        v.append({"key": "event-lost", "what": f"child received pass-through events {got_pt} of {fed_pt} although no tunnel is establishing"})
     if crash:
         dirty_any = any(p["dirty"] or p["errors"] for p in obs["peers"].values())
         if crash[1] == "SendRaise" and crash[0] not in obs["hs_done"]:
